@@ -49,6 +49,9 @@ type env struct {
 	listP []*secp256k1.Point
 	// option structs shared by all callers (read-only inputs of Sign / Verify), fields left at their defaults
 	optS, optV *secec.ECDSAOptions
+	longS      []*secp256k1.Scalar
+	longP      []*secp256k1.Point
+	longSum    *big.Int
 }
 
 func (e *env) listFP() string {
@@ -88,6 +91,14 @@ func newEnv() *env {
 	e.dstA = bytes.Repeat([]byte("A"), 300)
 	e.dstB = bytes.Repeat([]byte("B"), 257)
 	e.optS, e.optV = &secec.ECDSAOptions{}, &secec.ECDSAOptions{RejectMalleable: true}
+	e.longSum = new(big.Int)
+	for i := 0; i < 160; i++ {
+		si := ref.ModN(ref.OS2IP(ref.TaggedHash("verif/C20-long", []byte{byte(i)})))
+		ki := big.NewInt(int64(i + 2))
+		e.longS = append(e.longS, lib.MkSC(si))
+		e.longP = append(e.longP, lib.MkPT(ref.BaseMul(ki)))
+		e.longSum = ref.ZnAdd(e.longSum, ref.ZnMul(si, ki))
+	}
 	e.listS = []*secp256k1.Scalar{e.S1, secp256k1.NewScalar(), e.S2}
 	e.listP = []*secp256k1.Point{e.P1, lib.MkPT(ref.G().Mul(big.NewInt(5))), e.P2}
 	return e
@@ -314,6 +325,14 @@ var ops = []cop{
 	{"MultiScalarMultVartime(shared lists, zero scalar in the middle)", true, func(e *env) []byte {
 		return new(secp256k1.Point).MultiScalarMultVartime(e.listS, e.listP).UncompressedBytes()
 	}, func(e *env) []byte { return e.p1.Mul(e.s1).Add(e.p2.Mul(e.s2)).Uncompressed() }},
+	// a long list: implementations that farm the per-term work out to goroutines of their own are exercised from
+	// several callers at once (free-running passes only)
+	{"MultiScalarMult(160 terms, shared lists)", true, func(e *env) []byte {
+		return new(secp256k1.Point).MultiScalarMult(e.longS, e.longP).UncompressedBytes()
+	}, func(e *env) []byte { return ref.BaseMul(e.longSum).Uncompressed() }},
+	{"MultiScalarMultVartime(160 terms, shared lists)", true, func(e *env) []byte {
+		return new(secp256k1.Point).MultiScalarMultVartime(e.longS, e.longP).UncompressedBytes()
+	}, func(e *env) []byte { return ref.BaseMul(e.longSum).Uncompressed() }},
 	// default entropy source (rand == nil): not a function of the inputs, so the oracle is validity under the reference
 	// verifier; free-running passes only (see freeOnly)
 	{"SK.Sign(Schnorr, rand=nil) verifies", true, func(e *env) []byte {
@@ -346,7 +365,7 @@ var ops = []cop{
 
 // freeOnly: operations whose control flow depends on fresh randomness (the cooperative scheduler needs replayable
 // executions); they run in the free-running race pass and in the first-use processes only.
-var freeOnly = map[string]bool{"SK.Sign(Schnorr, rand=nil) verifies": true, "K.Sign(rand=nil) verifies": true, "GenerateKey() is a consistent pair": true}
+var freeOnly = map[string]bool{"MultiScalarMult(160 terms, shared lists)": true, "MultiScalarMultVartime(160 terms, shared lists)": true, "SK.Sign(Schnorr, rand=nil) verifies": true, "K.Sign(rand=nil) verifies": true, "GenerateKey() is a consistent pair": true}
 
 func findOp(n string) *cop {
 	for i := range ops {
